@@ -189,7 +189,7 @@ def run_property(prop, tier, seed, replay=None):
     lines = []
     for k in sorted(known_hit):
         lines.append('KNOWN-FINDING: property=%s %s [%s] (%d observations this run)' % (prop, open_keys[k]['what'], k, vcount[k]))
-    rdir = os.path.join(env.VERIF, 'replays', prop)
+    rdir = os.path.join(os.environ.get('VT_REPLAY_DIR') or os.path.join(env.VERIF, 'replays'), prop)
     replay_paths = []
     if new_keys:
         os.makedirs(rdir, exist_ok=True)
@@ -259,8 +259,9 @@ def run_property(prop, tier, seed, replay=None):
             'coverage': cov, 'assumptions': list(mod.ASSUMPTIONS), 'wall_s': round(wall, 2),
             'violations': len(new_keys),
         }
-        os.makedirs(os.path.join(env.VERIF, 'evidence'), exist_ok=True)
-        with open(os.path.join(env.VERIF, 'evidence', '%s.json' % prop), 'w') as f:
+        evdir = os.environ.get('VT_EVIDENCE_DIR') or os.path.join(env.VERIF, 'evidence')
+        os.makedirs(evdir, exist_ok=True)
+        with open(os.path.join(evdir, '%s.json' % prop), 'w') as f:
             json.dump(evidence, f, indent=1, ensure_ascii=False, sort_keys=True)
     print('%s %s tier=%s seed=%s: %s  evaluations=%d distinct_nontrivial=%d interpreters=%d wall=%.1fs' % (
         prop, getattr(mod, 'TITLE', ''), tier, seed, verdict.upper(), evaluations, len(hashes), len(results), wall))
